@@ -364,6 +364,9 @@ pub fn gen_sv(rng: &mut Rng) -> i128 {
 }
 
 pub fn gen(rng: &mut Rng, n: usize, out: &mut Vec<String>) {
+    // a twentieth: the real (permissionless) migrate_curve instruction through dispatch
+    crate::mon_c18::migrate_lines(rng, (n / 20).max(4), out);
+    let n = n - out.len().min(n);
     for i in 0..n {
         let ir = gen_ir(rng);
         match i % 4 {
